@@ -174,6 +174,8 @@ structure Pool where
   dropBytes : Nat := 0         -- bytes of packets refused because both buffers were full
   reported : Nat := 0          -- bytes announced upstream by report packets
   lostRep : Nat := 0           -- bytes whose report packet failed to be written
+  /-- ghost: every accepted packet with the sender that accepted it, in the order `WritePacketLocked` accepted them -/
+  accAll : List (Pkt × Bool) := []
 deriving DecidableEq, Repr
 
 def getB (s : Pool) (i : Bool) : Buf := if i then s.b1 else s.b0
@@ -190,12 +192,13 @@ def push (c : Cfg) (s : Pool) (p : Pkt) : Pool × List Ev :=
   else
     let a := s.prim
     if (bufPush c (getB s a) p).2 then
-      ({ setB s a (bufPush c (getB s a) p).1 with fwd := s.fwd + 1, fwdTotal := s.fwdTotal + 1 }, [.accepted a])
+      ({ setB s a (bufPush c (getB s a) p).1 with fwd := s.fwd + 1, fwdTotal := s.fwdTotal + 1,
+                                                         accAll := s.accAll ++ [(p, a)] }, [.accepted a])
     else
       let s1 := setB s a (bufPush c (getB s a) p).1
       if (bufPush c (getB s1 (!a)) p).2 then
         ({ setRecon (setB s1 (!a) (bufPush c (getB s1 (!a)) p).1) a with
-             prim := !a, fwd := s.fwd + 1, fwdTotal := s.fwdTotal + 1 }, [.accepted (!a)])
+             prim := !a, fwd := s.fwd + 1, fwdTotal := s.fwdTotal + 1, accAll := s.accAll ++ [(p, !a)] }, [.accepted (!a)])
       else
         ({ setB s1 (!a) (bufPush c (getB s1 (!a)) p).1 with
              wb := s.wb + p.length, drop := s.drop + 1, dropTotal := s.dropTotal + 1,
@@ -253,5 +256,69 @@ def runEv (v : Variant) (c : Cfg) (s : Pool) : List Op → Pool × List Ev
     let r := step v c s op
     let r2 := runEv v c r.1 ops
     (r2.1, r.2 ++ r2.2)
+
+/-! ### the write deadline of `sendLoop` (a layer on top of the pool model)
+
+  `sendLoop` refreshes `conn.SetWriteDeadline(now + WriteTimeout)` at the top of an iteration, before `pop`:
+      pinned : `if s.cfg.WriteTimeout-time.Until(writeDeadline) > writeTimeoutAccuracy`
+               — on a fresh connection `writeDeadline` is the zero time, `time.Until` saturates at the minimum Duration and the
+               subtraction overflows to a negative value: the branch is never taken, no deadline is ever armed (`Deadline.never`);
+      fixed  : `if writeDeadline.IsZero() || …` — a deadline is armed whenever `pop` is called (`Deadline.armed`).
+  An armed deadline is a timer: if the write callback is still blocked when it expires (`OpD.deadline i n`), `WriteTo`
+  returns a timeout error with `n` packets left to resend — the same transition as `wres i (err n)`; sendLoop then counts a
+  write error, closes the connection and reconnects (the spent deadline goes with the connection).
+  `dl0/dl1`: a deadline that has not expired is armed on the sender's connection.
+-/
+
+inductive Deadline | armed | never
+deriving DecidableEq, Repr
+
+structure PoolD where
+  p : Pool := {}
+  dl0 : Bool := false
+  dl1 : Bool := false
+deriving DecidableEq, Repr
+
+def getDl (s : PoolD) (i : Bool) : Bool := if i then s.dl1 else s.dl0
+def setDl (s : PoolD) (i : Bool) (x : Bool) : PoolD := if i then { s with dl1 := x } else { s with dl0 := x }
+
+inductive OpD
+  | base (op : Op)
+  /-- the armed write deadline of sender `i` expires during a blocked write, `n` packets of the batch are left to resend -/
+  | deadline (i : Bool) (n : Nat)
+deriving DecidableEq, Repr
+
+/-- the top of a sendLoop iteration, just before `pop` -/
+def arm (d : Deadline) (s : PoolD) (i : Bool) : PoolD :=
+  match d with
+  | .armed => setDl s i true
+  | .never => s
+
+/-- the top of a sendLoop iteration: only `pop` called from the loop position arms -/
+def armFor (d : Deadline) (s : PoolD) : Op → PoolD
+  | .pop i => if (getB s.p i).pc == .idle then arm d s i else s
+  | _ => s
+
+/-- the armed deadline of sender `i` can expire now: it is blocked in the write callback (`n` = packets left to resend) -/
+def deadlineEnabled (s : PoolD) (i : Bool) (n : Nat) : Bool :=
+  getDl s i && (getB s.p i).pc == .writing && decide (n < (batch (getB s.p i)).length)
+
+def stepD (d : Deadline) (v : Variant) (c : Cfg) (s : PoolD) : OpD → PoolD × List Ev
+  | .base op => ({ armFor d s op with p := (step v c s.p op).1 }, (step v c s.p op).2)
+  | .deadline i n =>
+    if deadlineEnabled s i n then
+      ({ setDl s i false with p := (step v c s.p (.wres i (.err n))).1 }, (step v c s.p (.wres i (.err n))).2)
+    else (s, [])
+
+def runD (d : Deadline) (v : Variant) (c : Cfg) (s : PoolD) : List OpD → PoolD
+  | [] => s
+  | op :: ops => runD d v c (stepD d v c s op).1 ops
+
+/-- the only move left to sender `i` when its upstream neither reads nor resets (the write callback never returns by
+    itself): the expiry of an armed deadline. `none`: the sender stays inside `WriteTo` until the kernel gives up. -/
+def stalledNext (s : PoolD) (i : Bool) : Option OpD :=
+  if (getB s.p i).pc == .writing then
+    (if getDl s i then some (.deadline i ((batch (getB s.p i)).length - 1)) else none)
+  else none
 
 end SH.Egress
